@@ -23,6 +23,7 @@ PYVC_MODULES = [
     "contracts.contraction",
     "contracts.koszul",
     "contracts.sectors",
+    "contracts.constructors",
 ]
 
 BASE = [A_BUILTINS, A_INT, A_TERM, A_NUMPY, A_BOUNDED, A_USER]
